@@ -10,7 +10,7 @@
 Require Import Bool List Arith Lia Ring Ring_theory.
 From PV Require Import Lattice.
 From PV Require Import Outcome Fock Poly PolySem CAR AlgebraBasics AlgebraProofs NormalizeProofs.
-From PV Require Import PresetsSpec IndexHam PresetsBasics PresetsPrepare PresetsLeaves.
+From PV Require Import PresetsSpec IndexHam PresetsBasics PresetsPrepare PresetsLeaves PresetsConfig.
 From PVgen Require Import Gen_LatticePresets.
 Import ListNotations.
 
@@ -130,7 +130,8 @@ Proof.
 Qed.
 
 Local Notation m_sz := (PresetsSpec.m_sz K k0 k1 kmul ksub khalf L idx).
-Local Notation spec_magnetization := (PresetsSpec.spec_magnetization K k0 k1 kadd kmul ksub khalf L idx).
+Local Notation m_nud := (PresetsSpec.m_nud K k0 k1 ksub L idx).
+Local Notation spec_magnetization_with := (PresetsSpec.spec_magnetization_with K k0 k1 kadd kmul ksub khalf L idx).
 Local Notation sz_val := (PresetsSpec.sz_val K k0 k1 kmul ksub khalf L idx).
 Local Notation x_szsz := (PresetsSpec.x_szsz K k0 k1 kmul ksub khalf L idx).
 Local Notation x_spsm := (PresetsSpec.x_spsm K k0 k1 kopp L idx).
@@ -157,7 +158,9 @@ Proof. intros x. transitivity (kmul x (kadd khalf khalf)); [ring|]. rewrite Hhal
 Lemma half_half_4 : forall x, kadd (kadd x x) (kadd x x) = x -> True.
 Proof. trivial. Qed.
 
-(** * addMagnetization: the code adds mH (n_up - n_down), i.e. TWICE the documented mH 1/2 (n_up - n_down) *)
+(** * addMagnetization.  The loop as it is written (Lattice.addMagnetization) adds mH (n_up - n_down); with the
+      amplitude halved it adds mH 1/2 (n_up - n_down).  Either variant of the code denotes the documentation of the
+      same variant ([addMagnetization_with_denotes]); MagRefuted below shows that the mixed combinations do not. *)
 Lemma addMagnetization_wgs : forall m l norb mH,
   find_site l m = Some (norb, 2) -> site_ok l norb 2 ->
   wgs (Lattice.addMagnetization L leqb K vo m l mH)
@@ -168,16 +171,36 @@ Proof.
   wstep. wstep; (eapply leaf_level; [exact Hring|]; apply S; [assumption|unfold spin_up, spin_down; lia]).
 Qed.
 
-Theorem addMagnetization_denotes_twice_documented : forall m l norb mH,
+Theorem addMagnetization_plain_denotes : forall m l norb mH,
   find_site l m = Some (norb, 2) -> site_ok l norb 2 ->
-  denotes m (Lattice.addMagnetization L leqb K vo m l mH) (spec_magnetization l norb (kadd mH mH)).
+  denotes m (Lattice.addMagnetization L leqb K vo m l mH) (spec_magnetization_with false l norb mH).
 Proof.
   intros m l norb mH F S. apply denotes_of_wgs.
   eapply wgs_meq; [eapply addMagnetization_wgs; eassumption|].
-  unfold PresetsSpec.spec_magnetization. apply meq_sum. intros a _.
-  intros s u _ _. unfold PresetsSpec.m_sz, PresetsSpec.m_add, PresetsSpec.m_scale, PresetsSpec.m_sub, PresetsSpec.up, PresetsSpec.down.
-  set (x := m_n (idx l a spin_up) s u). set (y := m_n (idx l a spin_down) s u).
-  transitivity (kmul (kmul (kadd mH mH) khalf) (ksub x y)); [rewrite dbl_half|]; ring.
+  unfold PresetsSpec.spec_magnetization_with. apply meq_sum. intros a _.
+  intros s u _ _. unfold PresetsSpec.m_nud, PresetsSpec.m_add, PresetsSpec.m_scale, PresetsSpec.m_sub, PresetsSpec.up, PresetsSpec.down.
+  ring.
+Qed.
+
+Theorem addMagnetization_halved_denotes : forall m l norb mH,
+  find_site l m = Some (norb, 2) -> site_ok l norb 2 ->
+  denotes m (Lattice.addMagnetization L leqb K vo m l (vhalf vo mH)) (spec_magnetization_with true l norb mH).
+Proof.
+  intros m l norb mH F S. apply denotes_of_wgs.
+  eapply wgs_meq; [eapply addMagnetization_wgs; eassumption|].
+  unfold PresetsSpec.spec_magnetization_with. apply meq_sum. intros a _.
+  intros s u _ _. unfold PresetsSpec.m_sz, PresetsSpec.m_nud, PresetsSpec.m_add, PresetsSpec.m_scale, PresetsSpec.m_sub, PresetsSpec.up, PresetsSpec.down.
+  cbn [vhalf kvops]. ring.
+Qed.
+
+(** code and documentation of the same variant agree *)
+Theorem addMagnetization_with_denotes : forall (half : bool) m l norb mH,
+  find_site l m = Some (norb, 2) -> site_ok l norb 2 ->
+  denotes m (addMagnetization_with L leqb K vo half m l mH) (spec_magnetization_with half l norb mH).
+Proof.
+  intros [|] m l norb mH F S; unfold addMagnetization_with.
+  - apply addMagnetization_halved_denotes; assumption.
+  - apply addMagnetization_plain_denotes; assumption.
 Qed.
 
 Lemma spin_up_lt2 : spin_up < 2. Proof. unfold spin_up. lia. Qed.
@@ -226,7 +249,7 @@ Qed.
 (** the executable form of the SzSz specification is the documented product of two S_z operators *)
 Lemma m_sz_diag : forall l a, meq (m_sz l a) (m_diag (sz_val l a)).
 Proof.
-  intros l a. unfold PresetsSpec.m_sz, PresetsSpec.sz_val, PresetsSpec.m_n.
+  intros l a. unfold PresetsSpec.m_sz, PresetsSpec.m_nud, PresetsSpec.sz_val, PresetsSpec.m_n.
   eapply meq_trans; [apply meq_scale; eapply m_diag_sub; exact Hring|].
   eapply m_diag_scale. exact Hring.
 Qed.
@@ -607,19 +630,6 @@ Proof.
   apply addCoulombP_denotes; assumption.
 Qed.
 
-(** the repaired code of proposed/fix-magnetization-factor.diff pushes Level(mH/2) and Level(-(mH/2)):
-    that is this model called with the halved parameter, and it denotes the documented operator *)
-Theorem addMagnetization_halved_denotes : forall m l norb mH,
-  find_site l m = Some (norb, 2) -> site_ok l norb 2 ->
-  denotes m (Lattice.addMagnetization L leqb K vo m l (vhalf vo mH)) (spec_magnetization l norb mH).
-Proof.
-  intros m l norb mH F S.
-  pose proof (addMagnetization_denotes_twice_documented m l norb (vhalf vo mH) F S) as H.
-  cbn [vhalf kvops] in *.
-  replace (kadd (kmul mH khalf) (kmul mH khalf)) with mH in H; [exact H|].
-  transitivity (kmul mH (kadd khalf khalf)); [rewrite Hhalf|]; ring.
-Qed.
-
 (** * Hermiticity *)
 Hypothesis conj0 : kconj k0 = k0.
 Hypothesis conj1 : kconj k1 = k1.
@@ -680,9 +690,18 @@ Proof.
   rewrite !(conj_occ K k0 k1 kconj conj0 conj1). reflexivity.
 Qed.
 
-Lemma h_magnetization : forall l norb mH, kconj mH = mH -> m_hermitian (spec_magnetization l norb mH).
+Lemma h_nud : forall l a, m_hermitian (m_nud l a).
 Proof.
-  intros. unfold PresetsSpec.spec_magnetization. apply h_sum. intros a _. apply h_scale; [assumption|apply h_sz].
+  intros l a. unfold PresetsSpec.m_nud, PresetsSpec.m_n.
+  eapply h_meq; [apply meq_sym; eapply m_diag_sub; exact Hring|]. eapply herm_diag; [exact conj0|]. intros s.
+  rewrite conj_sub'. rewrite !(conj_occ K k0 k1 kconj conj0 conj1). reflexivity.
+Qed.
+
+Lemma h_magnetization_with : forall (half : bool) l norb mH, kconj mH = mH ->
+  m_hermitian (spec_magnetization_with half l norb mH).
+Proof.
+  intros half l norb mH H. unfold PresetsSpec.spec_magnetization_with. apply h_sum. intros a _.
+  apply h_scale; [assumption|]. destruct half; [apply h_sz|apply h_nud].
 Qed.
 
 Lemma h_x_szsz : forall l1 l2 a, m_hermitian (x_szsz l1 l2 a).
@@ -856,12 +875,12 @@ Proof.
   intros m l norb nspin U Up J eps h F Hn Hp S I HU HUp HJ He.
   eapply denotes_hermitian; [apply addCoulombP_denotes; eassumption|]. apply h_coulombP; assumption.
 Qed.
-Theorem addMagnetization_hermitian : forall m l norb mH h,
+Theorem addMagnetization_with_hermitian : forall (half : bool) m l norb mH h,
   find_site l m = Some (norb, 2) -> site_ok l norb 2 -> kconj mH = mH ->
-  prepare true (lattice_of m (fst (Lattice.addMagnetization L leqb K vo m l mH))) = Done h -> m_hermitian (cp h).
+  prepare true (lattice_of m (fst (addMagnetization_with L leqb K vo half m l mH))) = Done h -> m_hermitian (cp h).
 Proof.
-  intros m l norb mH h F S HM. eapply denotes_hermitian; [apply addMagnetization_denotes_twice_documented; eassumption|].
-  apply h_magnetization. rewrite conj_add, HM. reflexivity.
+  intros half m l norb mH h F S HM. eapply denotes_hermitian; [apply addMagnetization_with_denotes; eassumption|].
+  apply h_magnetization_with. exact HM.
 Qed.
 Theorem addSzSz_hermitian : forall cfg m l1 l2 norb J h,
   find_site l1 m = Some (norb, 2) -> find_site l2 m = Some (norb, 2) ->
@@ -996,7 +1015,10 @@ Qed.
 End PF.
 
 
-(** * addMagnetization does NOT denote its documented operator (in any ring with 1 <> 0) *)
+(** * Code and documentation of addMagnetization must be of the same variant (in any ring with 1 <> 0):
+      the code that passes the amplitude as given does NOT denote the operator with the factor 1/2 (the state of /repo
+      before commit 6442010 corrected the documentation), and the code that halves it does not denote the operator
+      without the factor. *)
 Section MagRefuted.
 Variable K : Type.
 Variables (k0 k1 : K) (kadd kmul ksub : K -> K -> K) (kopp : K -> K).
@@ -1009,21 +1031,33 @@ Hypothesis Hhalf : kadd khalf khalf = k1.
 Variable kconj : K -> K.
 Hypothesis Hnontrivial : k1 <> k0.
 
-(** the statement one would like to have: the code as written adds the documented mH 1/2 (n_up - n_down) *)
-Definition addMagnetization_denotes_stmt : Prop :=
+(** "addMagnetization, code variant [code_half], adds the operator of documentation variant [doc_half]" *)
+Definition addMagnetization_denotes_stmt (code_half doc_half : bool) : Prop :=
   forall (M : nat) (L : Type) (leqb : L -> L -> bool) (idx : L -> nat -> nat -> nat)
          (m : site_map L) (l : L) (norb : nat) (mH : K),
   (forall a b, leqb a b = true <-> a = b) ->
   Lattice.find_site L leqb l m = Some (norb, 2) -> site_ok M L idx l norb 2 ->
   denotes K k0 k1 kadd kmul kopp kzero M L idx m
-    (Lattice.addMagnetization L leqb K (kvops K kadd kmul ksub kopp kzero khalf kconj) m l mH)
-    (PresetsSpec.spec_magnetization K k0 k1 kadd kmul ksub khalf L idx l norb mH).
+    (addMagnetization_with L leqb K (kvops K kadd kmul ksub kopp kzero khalf kconj) code_half m l mH)
+    (PresetsSpec.spec_magnetization_with K k0 k1 kadd kmul ksub khalf L idx doc_half l norb mH).
+
+Theorem addMagnetization_denotes_same_variant : forall b, addMagnetization_denotes_stmt b b.
+Proof.
+  intros b M L leqb idx m l norb mH _ F S.
+  exact (addMagnetization_with_denotes K k0 k1 kadd kmul ksub kopp kzero Hring khalf kconj M L leqb idx b m l norb mH F S).
+Qed.
+
+Lemma half_not_one : khalf <> k1.
+Proof.
+  intro Hh. apply Hnontrivial. rewrite Hh in Hhalf.
+  transitivity (ksub (kadd k1 k1) k1); [ring|]. rewrite Hhalf. ring.
+Qed.
 
 (** witness: one site with one orbital and two spins (index = spin), mH = 1, the state with only the up mode
-    occupied: the code gives 1, the documentation 1/2 *)
-Theorem addMagnetization_denotes_refuted : ~ addMagnetization_denotes_stmt.
+    occupied: the two variants give 1 and 1/2 *)
+Theorem addMagnetization_denotes_mixed_refuted : forall b, ~ addMagnetization_denotes_stmt b (negb b).
 Proof.
-  intro H.
+  intros b H.
   set (idx := fun (_ : unit) (a z : nat) => z).
   set (leqb := fun (_ _ : unit) => true).
   set (m := [(tt, (1, 2))] : site_map unit).
@@ -1031,20 +1065,21 @@ Proof.
   assert (F : Lattice.find_site unit leqb tt m = Some (1, 2)) by reflexivity.
   assert (S : site_ok 2 unit idx tt 1 2) by (intros a z _ Hz; exact Hz).
   destruct (H 2 unit leqb idx m tt 1 k1 Hl F S) as (_ & h1 & E1 & D1).
-  destruct (addMagnetization_denotes_twice_documented K k0 k1 kadd kmul ksub kopp kzero Hring khalf Hhalf kconj
-              2 unit leqb idx m tt 1 k1 F S) as (_ & h2 & E2 & D2).
+  destruct (addMagnetization_denotes_same_variant b 2 unit leqb idx m tt 1 k1 Hl F S) as (_ & h2 & E2 & D2).
   rewrite E1 in E2. inversion E2; subst h2. clear E2.
   pose proof (D1 [false; true] [false; true] eq_refl eq_refl) as A1.
   pose proof (D2 [false; true] [false; true] eq_refl eq_refl) as A2.
   rewrite A1 in A2. clear -A2 Hhalf Hnontrivial Hring Rth. unfold idx in A2.
-  cbv [PresetsSpec.spec_magnetization PresetsSpec.m_sum PresetsSpec.rng seq PolySem.ksum fold_right
-       PresetsSpec.m_scale PresetsSpec.m_sz PresetsSpec.m_sub PresetsSpec.m_n PresetsSpec.m_diag PresetsSpec.occ
+  apply half_not_one.
+  destruct b; cbv [negb PresetsSpec.spec_magnetization_with PresetsSpec.m_sum PresetsSpec.rng seq PolySem.ksum fold_right
+       PresetsSpec.m_scale PresetsSpec.m_sz PresetsSpec.m_nud PresetsSpec.m_sub PresetsSpec.m_n PresetsSpec.m_diag PresetsSpec.occ
        PresetsSpec.up PresetsSpec.down spin_up spin_down state_eqb eqb andb nth] in A2.
-  assert (Hh : khalf = k1).
-  { transitivity (kadd (kmul k1 (kmul khalf (ksub k1 k0))) k0); [ring|]. rewrite A2.
-    transitivity (kadd khalf khalf); [ring|exact Hhalf]. }
-  apply Hnontrivial. rewrite Hh in Hhalf.
-  transitivity (ksub (kadd k1 k1) k1); [ring|]. rewrite Hhalf. ring.
+  - transitivity (kadd (kmul k1 (kmul khalf (ksub k1 k0))) k0); [ring|]. rewrite <- A2. ring.
+  - transitivity (kadd (kmul k1 (kmul khalf (ksub k1 k0))) k0); [ring|]. rewrite A2. ring.
 Qed.
+
+(** the defect that was found: the code as it stands (factor 1) against the documentation before commit 6442010 (factor 1/2) *)
+Corollary addMagnetization_denotes_refuted : ~ addMagnetization_denotes_stmt false true.
+Proof. exact (addMagnetization_denotes_mixed_refuted false). Qed.
 
 End MagRefuted.
